@@ -52,6 +52,13 @@ ASSUMPTIONS = [
     "touching notes of equal pitch (one ends where the other starts) do not overlap and are generated; a "
     "zero-duration (grace) note is generated on an equal pitch only in the same voice, added before its main note",
     "configurations whose pad_bar padding is not a whole number of ticks are not generated",
+    "the divisions value chosen by the importer is free: imported positions are compared in quarters",
+    "import variant 'zerovel' (sub-spaces touch, modes): the written file with every note_off re-encoded as a "
+    "note_on of velocity 0 is the same MIDI content (anchored mechanism 'zero-velocity note on as off'); the raw "
+    "comparison always uses the file as written",
+    "time_sig_change on a measure with a fractional number of beats (documented TODO of the exporter) is only "
+    "generated in sub-space tsc-fractional, where the signature of that measure is not compared",
+    "hang detection: 5 s of CPU time per export/import call (ITIMER_PROF), not wall-clock",
 ]
 CHUNK = 4
 CALL_CPU_LIMIT = 5.0  # seconds of CPU per export/import call (normal: < 0.05 s)
@@ -89,6 +96,12 @@ def timed(fn, *a, **kw):
         return fn(*a, **kw)
     finally:
         signal.setitimer(signal.ITIMER_PROF, 0)
+
+
+def fr(x):
+    if isinstance(x, Fraction):
+        return "%d/%d" % (x.numerator, x.denominator) if x.denominator != 1 else int(x)
+    return x
 
 
 def msdiff(exp, got, n=4):
@@ -639,9 +652,11 @@ def spaces(tier, seed):
                     "signature change, short middle bar, short last bar, overlong bar followed by a change}; key change, two "
                     "tempo marks, ties over barlines; 3 policies x (mode 0/3, mode 4 with list input, velocity 80, minimum 480)"
                     % (M.PICKUP_METERS,)))
-    sp.append(Space("modes", lambda: with_configs(M.gen_modes(), cfg_modes), True,
-                    "%d part/group/voice structures x %d divisions patterns x pickup yes/no; 6 modes x 3 policies (full), "
-                    "minimum_ppq cycled over {0,7,480}; plus one zero-velocity re-encoding import per mode" % (len(M.STRUCTURES), len(M.DIV_PATTERNS))))
+    pats = M.DIV_PATTERNS if quick else M.DIV_PATTERNS + M.DIV_PATTERNS_MORE
+    sp.append(Space("modes", lambda: with_configs(M.gen_modes(pats), cfg_modes), True,
+                    "%d part/group/voice structures (tacet parts, nested groups, voice None) x %d divisions patterns x pickup "
+                    "yes/no (+ parts of unequal length for the first pattern); 6 modes x 3 policies (full), minimum_ppq cycled "
+                    "over {0,7,480}; plus one zero-velocity re-encoding import per mode" % (len(M.STRUCTURES), len(pats))))
     sp.append(Space("touch", lambda: with_configs(M.gen_touch(), cfg_touch), True,
                     "3 touching notes of one pitch assigned in all 27 ways to (part 1 voice 1, part 1 voice 2, part 2), "
                     "6 grace-note constellations; divisions {1,6}; 6 modes x {file as written, same file with note-offs "
